@@ -113,6 +113,46 @@ theorem AllNL.imp2 {P Q : Expr → Prop} (h : ∀ x, AllN P x → Q x) : ∀ (es
   | e :: es, he => ⟨AllN.imp2 h e he.1, AllNL.imp2 h es he.2⟩
 end
 
+mutual
+theorem AllN.imp3 {P Q R : Expr → Prop} (h : ∀ x, AllN P x → AllN Q x → R x) :
+    ∀ (e : Expr), AllN P e → AllN Q e → AllN R e
+  | .rule n m sm b, h1, h2 => ⟨h _ h1 h2, AllN.imp3 h b h1.2 h2.2⟩
+  | .opt e, h1, h2 => ⟨h _ h1 h2, AllN.imp3 h e h1.2 h2.2⟩
+  | .rep e, h1, h2 => ⟨h _ h1 h2, AllN.imp3 h e h1.2 h2.2⟩
+  | .rep1 e, h1, h2 => ⟨h _ h1 h2, AllN.imp3 h e h1.2 h2.2⟩
+  | .repExact e n, h1, h2 => ⟨h _ h1 h2, AllN.imp3 h e h1.2 h2.2⟩
+  | .repMin e n, h1, h2 => ⟨h _ h1 h2, AllN.imp3 h e h1.2 h2.2⟩
+  | .repMax e n, h1, h2 => ⟨h _ h1 h2, AllN.imp3 h e h1.2 h2.2⟩
+  | .repMinMax e m n, h1, h2 => ⟨h _ h1 h2, AllN.imp3 h e h1.2 h2.2⟩
+  | .andP e, h1, h2 => ⟨h _ h1 h2, AllN.imp3 h e h1.2 h2.2⟩
+  | .notP e, h1, h2 => ⟨h _ h1 h2, AllN.imp3 h e h1.2 h2.2⟩
+  | .group e t, h1, h2 => ⟨h _ h1 h2, AllN.imp3 h e h1.2 h2.2⟩
+  | .push e, h1, h2 => ⟨h _ h1 h2, AllN.imp3 h e h1.2 h2.2⟩
+  | .seq es, h1, h2 => ⟨h _ h1 h2, AllNL.imp3 h es h1.2 h2.2⟩
+  | .choice es, h1, h2 => ⟨h _ h1 h2, AllNL.imp3 h es h1.2 h2.2⟩
+  | .ident n t, h1, h2 => h _ h1 h2
+  | .str _, h1, h2 => h _ h1 h2
+  | .ci _, h1, h2 => h _ h1 h2
+  | .range _ _, h1, h2 => h _ h1 h2
+  | .pushLit _, h1, h2 => h _ h1 h2
+  | .peek, h1, h2 => h _ h1 h2
+  | .pop, h1, h2 => h _ h1 h2
+  | .drop, h1, h2 => h _ h1 h2
+  | .peekAll, h1, h2 => h _ h1 h2
+  | .popAll, h1, h2 => h _ h1 h2
+  | .peekSlice _ _, h1, h2 => h _ h1 h2
+  | .anyB, h1, h2 => h _ h1 h2
+  | .soiB, h1, h2 => h _ h1 h2
+  | .eoiB, h1, h2 => h _ h1 h2
+  | .uprop _, h1, h2 => h _ h1 h2
+  | .skipUntil _, h1, h2 => h _ h1 h2
+  | .optChoice _ _, h1, h2 => h _ h1 h2
+theorem AllNL.imp3 {P Q R : Expr → Prop} (h : ∀ x, AllN P x → AllN Q x → R x) :
+    ∀ (es : List Expr), AllNL P es → AllNL Q es → AllNL R es
+  | [], _, _ => trivial
+  | e :: es, h1, h2 => ⟨AllN.imp3 h e h1.1 h2.1, AllNL.imp3 h es h1.2 h2.2⟩
+end
+
 theorem AllN.imp {P Q : Expr → Prop} (h : ∀ x, P x → Q x) {e : Expr} (he : AllN P e) : AllN Q e :=
   AllN.imp2 (fun x hx => h x hx.root) e he
 
@@ -216,6 +256,7 @@ inductive TR (F : Feat) (G : Grammar) : Bool → Expr → Expr → Prop
   | term {a e} : isTerm e = true → TR F G a e e
   | ident {a n t} : TR F G a (.ident n t) (.ident n t)
   | rule {a n m sm b} : TR F G a (.rule n m sm b) (.rule n m sm b)
+  | ruleC {a n m sm b b'} : ruleAtomic n m a = a → TR F G a b b' → TR F G a (.rule n m sm b) (.rule n m sm b')
   | seq {a es es'} : es.length = es'.length →
       (∀ i (h1 : i < es.length) (h2 : i < es'.length), TR F G a es[i] es'[i]) → TR F G a (.seq es) (.seq es')
   | choice {a es es'} : es.length = es'.length →
